@@ -106,6 +106,9 @@ impl Iterator for FlopExhaustiveEvaluatorIterator {
     type Item = Showdown;
 
     fn next(&mut self) -> Option<Showdown> {
+        #[cfg(feature = "verif-hooks")]
+        let _verif_guard = crate::verif_hooks::NextGuard::enter();
+
         if self.current_turn_index >= self.turn_to && self.current_river_index >= self.river_to {
             return None;
         }
@@ -136,6 +139,14 @@ impl Iterator for FlopExhaustiveEvaluatorIterator {
             player_card_pairs.push(entry.0);
             probability *= entry.1;
         }
+
+        #[cfg(feature = "verif-hooks")]
+        crate::verif_hooks::on_deal(
+            self.current_turn_index as usize,
+            self.current_river_index as usize,
+            self.current_player_indexes.iter().map(|i| *i as usize),
+            is_materialized,
+        );
 
         let mut showdown = None;
 
